@@ -580,4 +580,153 @@ Proof.
   - apply conf_list_case; auto.
   - apply conf_dict_case. apply Forall_map. exact H.
 Qed.
+
+(* --- roots: a constructed typed value (any sealed / accessor flags, a dict or the attribute dict of an object) ------------ *)
+Lemma cnode_build_node : forall ctx pa p k fl its nx,
+  node_ok k fl (fst (build_items build k (f_partial fl) nx p its 0 (N.succ nx))) ->
+  Forall (fun kc => cnode (snd kc)) (fst (build_items build k (f_partial fl) nx p its 0 (N.succ nx))) ->
+  cnode (fst (build ctx pa p (LitNode k fl false its) nx)).
+Proof.
+  intros. rewrite build_node. cbv zeta. destruct (build_items build k (f_partial fl) nx p its 0 (N.succ nx)) as [its' nx'].
+  cbn [fst] in *. apply cnode_ctor_seal. apply cnode_node. auto.
+Qed.
+
+(* the members of a dict value accepted by a Dict spec with a schema, built under a node with allow_partial = pc *)
+Lemma dict_members_conf : forall kd kvs fs m pc ctx nx path,
+  kd <> KList -> good (SDict (Some fs) m) = true -> apply pc (SDict (Some fs) m) (PDict kvs) = Ok (PDict kvs) ->
+  lit_pv (tlit ev pc (Some (SDict (Some fs) m)) (PDict kvs)) = PDict kvs ->
+  dict_keys_nodup (PDict kvs) = true -> lists_present (PDict kvs) = true ->
+  let its' := fst (build_items build kd ctx nx path (tlit_dict ev pc (Some (SDict (Some fs) m)) kvs) 0 (N.succ nx)) in
+  Forall (fun kc => cnode (snd kc)) its' /\
+  Forall (fun kc => exists f, dict_field fs (fst kc) = Some f /\ child_ok (pc || P) f (snd kc)) its' /\
+  (forall s, has_const s fs = true -> SymCoreDefs.has_key (KS s) its' = true).
+Proof.
+  intros kd kvs fs m pc ctx nx path KL G A LP ND PR its'.
+  assert (PC : pc = true -> pc || P = true) by (intros ->; reflexivity).
+  assert (IHs : Forall conf_stmt (map snd kvs)) by (apply Forall_forall; intros; apply tlit_conf).
+  destruct (fix_dict _ _ _ _ G ND A) as (_ & FX & CK).
+  rewrite tlit_pdict in LP. simpl bound_opt in LP. rewrite lit_pv_dict in LP. injection LP as LP. apply tlit_dict_pv in LP.
+  pose proof (nodup_dict_forall _ ND) as NDs. pose proof (present_dict_forall _ PR) as PRs.
+  set (lits := tlit_dict ev pc (Some (SDict (Some fs) m)) kvs) in *.
+  assert (R : Forall2 (fun (lc : key * lit) (kn : key * node) =>
+                         fst kn = fst lc /\ cnode (snd kn) /\
+                         exists f, dict_field fs (fst lc) = Some f /\ child_ok (pc || P) f (snd kn))
+                      lits its').
+  { apply build_items_rel. intros kk c I k' cx pa' q n K'. simpl. split; [apply K'; auto|].
+    destruct (tlit_dict_in _ _ _ _ _ I) as (k & x & Ix & -> & ->).
+    destruct (FX _ _ Ix) as (f & DF & Gf & Af).
+    rewrite field_opt_dict, DF.
+    rewrite Forall_forall in IHs, LP, NDs, PRs.
+    assert (Isnd : In x (map snd kvs)) by (apply in_map_iff; exists (k, x); auto).
+    pose proof (LP _ Ix) as LPx. cbn [fst snd] in LPx. rewrite field_opt_dict, DF in LPx.
+    destruct (IHs _ Isnd f pc pc (pc || P) Gf Af LPx (NDs _ Ix) (PRs _ Ix) PC PC cx pa' q n) as (C1 & C2 & _).
+    split; auto. exists f. split; auto. }
+  split; [|split].
+  - eapply Forall2_forall_r; [exact R|]. intros a b _ (_ & C1 & _). exact C1.
+  - eapply Forall2_forall_r; [exact R|]. intros a b _ (E & _ & f & DF & CO). exists f. rewrite E. auto.
+  - intros s HS. eapply has_key_KS; [|apply CK; exact HS].
+    unfold its'. rewrite build_items_keys by auto. unfold lits. apply tlit_dict_keys.
+Qed.
+
+(* members built without a binding schema *)
+Lemma free_members_conf : forall kd kvs pc b ctx nx path, field_opt b = (fun _ => None) ->
+  Forall (fun kc => cnode (snd kc)) (fst (build_items build kd ctx nx path (tlit_dict ev pc b kvs) 0 (N.succ nx))).
+Proof.
+  intros. eapply Forall2_forall_r.
+  - apply (build_items_rel (fun _ kn => cnode (snd kn))). intros kk c I k' cx pa' q n _. simpl.
+    destruct (tlit_dict_in _ _ _ _ _ I) as (k & x & Ix & -> & ->). rewrite H. apply conf_free.
+  - intros a b0 _ C. exact C.
+Qed.
+
+Lemma conf_root_dict : forall kd kvs sp pc flR ctx pa path nx,
+  (kd = KDict \/ exists c fs m, kd = KObj c /\ sp = SDict (Some fs) m) ->
+  good sp = true -> apply pc sp (PDict kvs) = Ok (PDict kvs) ->
+  lit_pv (tlit ev pc (Some sp) (PDict kvs)) = PDict kvs ->
+  dict_keys_nodup (PDict kvs) = true -> lists_present (PDict kvs) = true ->
+  f_partial flR = pc -> f_spec flR = ref_opt ev (bound_opt true (Some sp)) ->
+  cnode (fst (build ctx pa path (LitNode kd flR false (tlit_dict ev pc (bound_opt true (Some sp)) kvs)) nx)).
+Proof.
+  intros kd kvs sp pc flR ctx pa path nx KD G A LP ND PR PA FS. subst pc.
+  assert (KL : kd <> KList) by (destruct KD as [->|(c & fs & m & -> & _)]; congruence).
+  destruct (fix_dict_route _ _ _ G A) as (NF & [(sc & m & ->)|(m & ->)]).
+  - simpl bound_opt in *. destruct sc as [fs|].
+    + destruct (dict_members_conf kd kvs fs m (f_partial flR) (f_partial flR) nx path KL G A LP ND PR) as (M1 & M2 & M3).
+      apply cnode_build_node; auto.
+      unfold SymCoreTypedConf.node_ok. destruct (spec_at ev (f_spec flR)) as [sp'|] eqn:SA; auto.
+      rewrite FS in SA. simpl in SA. pose proof (spec_at_ref_of _ _ _ SA) as E. subst sp'.
+      assert (B : Forall (fun kc => exists f, dict_field fs (fst kc) = Some f /\ child_ok (part P flR) f (snd kc))
+                         (fst (build_items build kd (f_partial flR) nx path (tlit_dict ev (f_partial flR) (Some (SDict (Some fs) m)) kvs) 0 (N.succ nx))) /\
+                  (forall s, has_const s fs = true ->
+                     SymCoreDefs.has_key (KS s) (fst (build_items build kd (f_partial flR) nx path (tlit_dict ev (f_partial flR) (Some (SDict (Some fs) m)) kvs) 0 (N.succ nx))) = true)).
+      { split; auto. }
+      destruct KD as [->|(c & fs0 & m0 & -> & _)]; exact B.
+    + destruct KD as [->|(c & fs0 & m0 & _ & E)]; [|discriminate].
+      apply cnode_build_node; [|apply free_members_conf; reflexivity].
+      unfold SymCoreTypedConf.node_ok. destruct (spec_at ev (f_spec flR)) as [sp'|] eqn:SA; auto.
+      rewrite FS in SA. simpl in SA. pose proof (spec_at_ref_of _ _ _ SA) as E. subst sp'. exact I.
+  - destruct KD as [->|(c & fs0 & m0 & _ & E)]; [|discriminate].
+    simpl bound_opt in *. apply cnode_build_node; [|apply free_members_conf; reflexivity].
+    apply node_ok_untyped. rewrite FS. reflexivity.
+Qed.
+
+Lemma list_members_conf : forall l e mn mx m pc ctx nx path,
+  good (SList e mn mx m) = true -> apply pc (SList e mn mx m) (PList l) = Ok (PList l) ->
+  lit_pv (tlit ev pc (Some (SList e mn mx m)) (PList l)) = PList l ->
+  dict_keys_nodup (PList l) = true -> lists_present (PList l) = true ->
+  let its' := fst (build_items build KList ctx nx path (tlit_list ev pc (Some e) l 0) 0 (N.succ nx)) in
+  Forall (fun kc => cnode (snd kc)) its' /\
+  Forall (fun kc => child_ok (pc || P) e (snd kc)) its' /\
+  count_present its' = len l /\ zlen its' = len l /\ size_ok mn mx (len l) = true.
+Proof.
+  intros l e mn mx m pc ctx nx path G A LP ND PR its'.
+  assert (PC : pc = true -> pc || P = true) by (intros ->; reflexivity).
+  assert (IHs : Forall conf_stmt l) by (apply Forall_forall; intros; apply tlit_conf).
+  destruct (fix_list _ _ _ _ _ _ G A) as (_ & FX & SZ).
+  rewrite tlit_plist in LP. simpl bound_opt in LP. simpl elem_opt in LP. rewrite lit_pv_list in LP. injection LP as LP. apply tlit_list_pv in LP.
+  pose proof (nodup_list_forall _ ND) as NDs. pose proof (present_list_forall _ PR) as PRs.
+  pose proof (good_list _ _ _ _ G) as Ge.
+  assert (R : Forall2 (fun (lc : key * lit) (kn : key * node) =>
+                         cnode (snd kn) /\ child_ok (pc || P) e (snd kn) /\ SymCoreDefs.is_missing (snd kn) = false)
+                      (tlit_list ev pc (Some e) l 0) its').
+  { apply build_items_rel. intros kk c I k' cx pa' q n _. simpl.
+    destruct (tlit_list_in _ _ _ _ _ _ I) as (x & Ix & ->).
+    rewrite Forall_forall in IHs, FX, LP, NDs, PRs.
+    destruct (PRs _ Ix) as (NM & PRx).
+    destruct (IHs _ Ix e pc pc (pc || P) Ge (FX _ Ix) (LP _ Ix) (NDs _ Ix) PRx PC PC cx pa' q n) as (C1 & C2 & C3).
+    split; auto. split; auto.
+    destruct (SymCoreDefs.is_missing (fst (build cx pa' q (tlit ev pc (Some e) x) n))) eqn:M; auto.
+    rewrite (C3 eq_refl) in NM. discriminate. }
+  assert (LEN : zlen its' = len l).
+  { unfold zlen, len. rewrite (Forall2_len' _ _ _ _ _ R). rewrite tlit_list_length. reflexivity. }
+  split; [|split; [|split; [|split]]]; auto.
+  - eapply Forall2_forall_r; [exact R|]. intros a b _ (C1 & _). exact C1.
+  - eapply Forall2_forall_r; [exact R|]. intros a b _ (_ & C2 & _). exact C2.
+  - rewrite count_present_all; auto. eapply Forall2_forall_r; [exact R|]. intros a b _ (_ & _ & C3). exact C3.
+Qed.
+
+Lemma conf_root_list : forall l sp pc flR ctx pa path nx,
+  good sp = true -> apply pc sp (PList l) = Ok (PList l) ->
+  lit_pv (tlit ev pc (Some sp) (PList l)) = PList l ->
+  dict_keys_nodup (PList l) = true -> lists_present (PList l) = true ->
+  f_partial flR = pc -> f_spec flR = ref_opt ev (bound_opt false (Some sp)) ->
+  cnode (fst (build ctx pa path (LitNode KList flR false (tlit_list ev pc (elem_opt (bound_opt false (Some sp))) l 0)) nx)).
+Proof.
+  intros l sp pc flR ctx pa path nx G A LP ND PR PA FS. subst pc.
+  destruct (fix_list_route _ _ _ G A) as (NF & [(e & mn & mx & m & ->)|(m & ->)]).
+  - simpl bound_opt in *. simpl elem_opt in *.
+    destruct (list_members_conf l e mn mx m (f_partial flR) (f_partial flR) nx path G A LP ND PR) as (M1 & M2 & M3 & M4 & M5).
+    apply cnode_build_node; auto.
+    unfold SymCoreTypedConf.node_ok. destruct (spec_at ev (f_spec flR)) as [sp'|] eqn:SA; auto.
+    rewrite FS in SA. simpl in SA. pose proof (spec_at_ref_of _ _ _ SA) as E. subst sp'.
+    unfold size_ok in M5. apply andb_true_iff in M5 as [S1 S2]. split; [|split].
+    + exact M2.
+    + rewrite M3. lia.
+    + destruct mx; auto. rewrite M4. lia.
+  - simpl bound_opt in *. simpl elem_opt in *. apply cnode_build_node.
+    + apply node_ok_untyped. rewrite FS. reflexivity.
+    + eapply Forall2_forall_r.
+      * apply (build_items_rel (fun _ kn => cnode (snd kn))). intros kk c I k' cx pa' q n _. simpl.
+        destruct (tlit_list_in _ _ _ _ _ _ I) as (x & Ix & ->). apply conf_free.
+      * intros a b _ C. exact C.
+Qed.
 End Main.
